@@ -239,8 +239,7 @@ class GroupBase:
             value = [value] * len(idx)
 
         for mdl, ii, val in zip(models, idx, value):
-            uid = mdl.idx2uid(ii)
-            mdl.__dict__[src].__dict__[attr][uid] = val
+            mdl.set(src=src, idx=ii, attr=attr, value=val)
 
         return True
 
